@@ -206,7 +206,7 @@ func c24(c *Ctx) {
 				}
 				n := calleeName(&x.Call)
 				if n == "" {
-					n = "value of type " + x.Call.Value.Type().String()
+					n = "value of type " + typeStringNoNames(x.Call.Value.Type())
 				}
 				switch n {
 				case "grpc.toRPCErr", "internal/status.Status.Err", "status.Convert", "fmt.Errorf", "internal/transport.ContextErr":
@@ -229,7 +229,7 @@ func c24(c *Ctx) {
 					}
 					n := calleeName(&call.Call)
 					if n == "" {
-						n = "value of type " + call.Call.Value.Type().String()
+						n = "value of type " + typeStringNoNames(call.Call.Value.Type())
 					}
 					// an error that was tested to be a status error on the way here
 					for _, fc := range FactsAt(at) {
@@ -263,7 +263,7 @@ func c24(c *Ctx) {
 					return true // a local composite (dropError{...}, &NewStreamError{...}): internal carrier unwrapped by the caller
 				}
 			case *ssa.Parameter:
-				unknown = append(unknown, unk{fn, at, "param:" + x.Name()})
+				unknown = append(unknown, unk{fn, at, "param:" + paramName(x)})
 				return false
 			case *ssa.TypeAssert:
 				return true
@@ -296,8 +296,8 @@ func c24(c *Ctx) {
 		reviewed := map[string]string{
 			"grpc.clientStream.retryLocked|param:lastErr":                  "error of a failed op of this table, already a status or io.EOF",
 			"grpc.csAttempt.shouldRetry|param:err":                         "passed by retryLocked: error of a failed attempt op",
-			"grpc.clientStream.withRetry|call:value of type func(a *google.golang.org/grpc.csAttempt) error": "op closures are bodies of functions in this table",
-			"grpc.newClientStream|call:value of type func(ctx context.Context, opts ...google.golang.org/grpc.CallOption) (google.golang.org/grpc.ClientStream, error)": "closure over newClientStreamWithParams / user interceptor",
+			"grpc.clientStream.withRetry|call:value of type func(*google.golang.org/grpc.csAttempt) error": "op closures are bodies of functions in this table",
+			"grpc.newClientStream|call:value of type func(context.Context, ...google.golang.org/grpc.CallOption) (google.golang.org/grpc.ClientStream, error)": "closure over newClientStreamWithParams / user interceptor",
 			"grpc.ClientConn.Invoke|call:value of type google.golang.org/grpc.UnaryClientInterceptor":       "user interceptor (out of scope)",
 			"grpc.ClientConn.NewStream|call:value of type google.golang.org/grpc.StreamClientInterceptor": "user interceptor (out of scope)",
 			"grpc.csAttempt.getTransport|field:error":                      "inner error of the picker's drop error: a status error checked in pick (C24/R2/a54)",
